@@ -639,25 +639,25 @@ func c10Deletions(c *Ctx, m *shimModel) {
 						root = root.Parent()
 					}
 					ok := fn == m.Methods["Remove"] || (fn.Parent() != nil && root.Signature.Results().Len() == 3)
-				if !ok && fn.Signature.Recv() != nil {
-					// a method of a remover type whose values are built by the pruning function only
-					if T := recvNamed(fn); T != nil && T != m.Server {
-						nAlloc, okAlloc := 0, true
-						for _, g := range w.RepoFuncs() {
-							for _, a := range allocsOf(g, T.Obj().Pkg().Path()+"."+T.Obj().Name()) {
-								nAlloc++
-								top := a.Parent()
-								for top.Parent() != nil {
-									top = top.Parent()
-								}
-								if top.Signature.Results().Len() != 3 || recvNamed(top) != m.Server {
-									okAlloc = false
+					if !ok && fn.Signature.Recv() != nil {
+						// a method of a remover type whose values are built by the pruning function only
+						if T := recvNamed(fn); T != nil && T != m.Server {
+							nAlloc, okAlloc := 0, true
+							for _, g := range w.RepoFuncs() {
+								for _, a := range allocsOf(g, T.Obj().Pkg().Path()+"."+T.Obj().Name()) {
+									nAlloc++
+									top := a.Parent()
+									for top.Parent() != nil {
+										top = top.Parent()
+									}
+									if top.Signature.Results().Len() != 3 || recvNamed(top) != m.Server {
+										okAlloc = false
+									}
 								}
 							}
+							ok = nAlloc >= 1 && okAlloc
 						}
-						ok = nAlloc >= 1 && okAlloc
 					}
-				}
 					c.Check(ok, "R6.deletions", "caller of the removal helper: "+shortFn(fn), w.Pos(call.Pos()), "Remove or the pruning function's remover", "the removal helper is called from an unexpected place: a still-valid in-memory certificate can be dropped on an unrelated path")
 				}
 			}
